@@ -106,7 +106,7 @@ Definition pdb_sites_expected : list site := [
   ("parseLines", "float", [3; 1], 1);
   ("parseLines", "float", [4; 1], 1);
   ("parseLines", "float", [5; 1], 1);
-  ("parseLines", "index", [1], 10);
+  ("parseLines", "index", [1], 9);
   ("parseLines", "index_store", [1], 20);
   ("parseLines", "none_use:last_atom", [1], 13);
   ("parseLines", "none_use:sc", [1], 2);
